@@ -43,6 +43,13 @@ SPAN_SOURCES = (
 )
 
 
+from oracles import grammar as GR  # noqa: E402
+
+N_RICH = len(SPAN_SOURCES)
+# plus one witness text per expanded production alternative of the grammar (all combinations of optional parts)
+SPAN_SOURCES = SPAN_SOURCES + tuple((e if e in ("value", "type") else "document_ts_fragvars", t) for e, t in GR.sentence_texts())
+
+
 def span_tokens(text):
     return [(k, a, b, text[a:b]) for (k, a, b, v) in R.tokens(text)]
 
@@ -81,6 +88,10 @@ def render_with_gaps(tokens, gap, every, offset, width, lead):
 
 
 def parse_entry(entry, text, **kw):
+    if entry == "value":
+        return parse_value(text, **kw)
+    if entry == "type":
+        return parse_type(text, **kw)
     return parse(text, allow_type_system="_ts" in entry, experimental_fragment_variables="fragvars" in entry, **kw)
 
 
@@ -153,6 +164,7 @@ def _spans(src: int, gap: int, every: int, offset: int, width: int, lead: int, n
     """
     pre: 0 <= src < len(SPAN_SOURCES) and 0 <= gap < len(GAPS) and 1 <= every <= 3 and 0 <= offset < every and 1 <= width <= 2 and 0 <= lead <= 2
     pre: shard_of(gap)
+    pre: src < N_RICH or (every == 1 and width == 1 and lead == 0)
     post: _
     """
     entry, canonical = pick(src, SPAN_SOURCES)
@@ -208,10 +220,34 @@ def _spans(src: int, gap: int, every: int, offset: int, width: int, lead: int, n
     return result(ok, True)
 
 
+BLOCK_SHAPES = (("\n  a\n", "\n  b"), ("a\n   ", "\n   b"), ("\n      Hello,\n", "\n      World!\n    "), ("  ", "\n  b"), ("a\n\t", "\n\tb\n"),
+                ("\n\n  a", "\n\n"), ("a\r\n  ", "\r  b"), ("  a\n", "b"))
+SHAPED_N = 3 if thorough() else 2
+
+
+def _block_shaped(p: int, t: str) -> bool:
+    """
+    pre: 0 <= p < len(BLOCK_SHAPES) and len(t) <= SHAPED_N
+    pre: shard_of(p)
+    pre: lexable_in_block(t)
+    post: _
+    """
+    i = concrete_int(p, 0, len(BLOCK_SHAPES) - 1)
+    raw = BLOCK_SHAPES[i][0] + t + BLOCK_SHAPES[i][1]
+    got = parse_block_string(raw)
+    exp = R.block_string_value(raw)
+    return result(got == exp, len(t) > 0)
+
+
 CONDITIONS = [
     Cond(
+        name="block_shaped", fn=_block_shaped, quick=150, thorough=900, per_path=30, shards_quick=len(BLOCK_SHAPES), shards_thorough=len(BLOCK_SHAPES),
+        bound="raw block-string content prefix + t + suffix for %d multi-line layouts (indented text lines around the symbolic part, CRLF/CR breaks, tabs, leading/trailing blank lines) with symbolic t of <= 2 (thorough 3) characters" % len(BLOCK_SHAPES),
+        symbolic={"p": "choice: layout", "t": "data: symbolic middle"}, assumptions=["oracle: BlockStringValue()"], witness={"p": 0, "t": " "},
+    ),
+    Cond(
         name="spans", fn=_spans, quick=150, thorough=400, per_path=60, shards_quick=10, shards_thorough=10,
-        bound="3 documents covering every node kind x 10 ignorable gap strings (space, nothing, comma, LF, tab, CRLF, comment, BOM, ' , ', CR) placed at every 1st/2nd/3rd token boundary x width 1..2 x 3 leading prefixes x no_location: "
+        bound="3 rich documents covering every node kind (plus, with one gap string everywhere, one witness text per expanded production alternative of the grammar) x 10 ignorable gap strings (space, nothing, comma, LF, tab, CRLF, comment, BOM, ' , ', CR) placed at every 1st/2nd/3rd token boundary x width 1..2 x 3 leading prefixes x no_location: "
               "same tree as the single-space spelling, every span = (start of the node's first token, end of its last token) computed by the generator's offset arithmetic, Document = (0, len), the spanned text parses back to an equal node, loc None when disabled",
         symbolic={"src": "choice", "gap,every,offset,width,lead": "choice: where which ignorable characters go", "noloc": "choice"},
         assumptions=["token boundaries from the reference lexer; the token range of a node is taken from the single-space spelling and validated by re-parsing the spanned text"],
